@@ -207,9 +207,6 @@ fn cact(a: &CustomAction) -> Result<String, String> {
 
 /// Everything the kanata-level model needs, or the reason the case is out of its scope.
 pub fn serialise_kanata(c: &cfg::Cfg, hist: &[KEv]) -> Result<String, String> {
-    if c.layout.b().chords_v2.is_some() {
-        return Err("chordsv2".into());
-    }
     if c.zippy.is_some() {
         return Err("zippychord".into());
     }
@@ -218,6 +215,11 @@ pub fn serialise_kanata(c: &cfg::Cfg, hist: &[KEv]) -> Result<String, String> {
     }
     let lh = lay_hist(hist);
     let (lay, ser) = serialise_cfg(c, &lh);
+    // chv2: the `CHV2 …` section of the layout serialisation moves behind the kanata state
+    let (lay, chv2_section) = match lay.find(" CHV2 ") {
+        Some(i) => (lay[..i].to_string(), Some(lay[i + 1..].to_string())),
+        None => (lay, None),
+    };
     let mut out = vec![lay];
     // custom action table, in the numbering of the serialiser
     out.push(format!("CUS {}", ser.customs.len()));
@@ -285,6 +287,9 @@ pub fn serialise_kanata(c: &cfg::Cfg, hist: &[KEv]) -> Result<String, String> {
         u16::from(OsCode::MouseWheelUp), u16::from(OsCode::MouseWheelDown),
         u16::from(OsCode::MouseWheelLeft), u16::from(OsCode::MouseWheelRight)
     ));
+    if let Some(sec) = chv2_section {
+        out.push(sec); // chv2
+    }
     Ok(out.join(" "))
 }
 
@@ -394,12 +399,23 @@ pub struct Runner {
     pub vt: u64,
     pub out: Vec<String>,
     ms_elapsed: u16,
+    /// chv2: the one-shot list was full at some point while chords v2 is configured (the one path
+    /// the model's wrapper does not mirror): the case is answered `unsupported oneshot-evict-chv2`
+    pub risk: bool,
 }
 
 impl Runner {
     pub fn new(cfg_text: &str) -> Result<Self, String> {
         let k = Kanata::new_from_str(cfg_text, cfg_files(cfg_text)).map_err(|e| format!("{e:?}"))?;
-        Ok(Runner { k, names: keycode_names(), seen: 0, vt: 0, out: vec![], ms_elapsed: 0 })
+        Ok(Runner { k, names: keycode_names(), seen: 0, vt: 0, out: vec![], ms_elapsed: 0, risk: false })
+    }
+    /// chv2: layout digest, extended by the chords-v2 state when chords v2 is configured
+    pub fn digest(&self) -> String {
+        crate::lay::full_digest(self.k.layout.b())
+    }
+    fn note_risk(&mut self) {
+        let l = self.k.layout.b();
+        self.risk |= l.chords_v2.is_some() && l.oneshot.keys.len() >= 16;
     }
     fn collect(&mut self) {
         self.collect_tag("")
@@ -424,12 +440,14 @@ impl Runner {
         self.vt += 1;
         self.k.tick_ms(1, &None).unwrap();
         self.collect();
+        self.note_risk(); // chv2
     }
     pub fn input(&mut self, code: u16, v: KeyValue) {
         let osc = OsCode::from_u16(code).expect("harness: not an OsCode");
         let _ = self.k.handle_input_event(&KeyEvent { code: osc, value: v });
         // what a repeat event emits is tagged, so that it can be told from what a tick emits
         self.collect_tag(if v == KeyValue::Repeat { "R" } else { "" });
+        self.note_risk(); // chv2
     }
     pub fn fake(&mut self, a: u8, x: u8, y: u16) {
         let act = match a {
@@ -439,11 +457,14 @@ impl Runner {
             _ => FakeKeyAction::Toggle,
         };
         kanata_state_machine::handle_fakekey_action(act, self.k.layout.bm(), x, y);
+        self.note_risk(); // chv2
     }
     /// `n` milliseconds of the processing loop without input
     pub fn gap(&mut self, n: u32) {
         for i in 0..n {
-            if self.k.can_block_update_idle_waiting(self.ms_elapsed) {
+            let block = self.k.can_block_update_idle_waiting(self.ms_elapsed);
+            self.note_risk(); // chv2
+            if block {
                 // blocked until the next input: the rest of the gap passes without ticks
                 self.vt += (n - i) as u64;
                 return;
@@ -478,7 +499,7 @@ pub fn run_hist(r: &mut Runner, hist: &[KEv], loop_mode: bool, dbg: bool) {
                 for _ in 0..*n {
                     r.tick();
                     if dbg {
-                        let d = r.k.layout.b().verif_digest();
+                        let d = r.digest(); // chv2
                         r.out.push(format!("#{} {}", r.vt, d));
                     }
                 }
@@ -513,16 +534,22 @@ pub fn eval(line: &str) -> String {
         Err(_) => return "rej".into(),
     };
     run_hist(&mut r, &p.hist, loop_mode, p.dbg);
+    if r.risk {
+        return "unsupported oneshot-evict-chv2".into(); // chv2
+    }
     let idle = r.k.is_idle();
     let mut out = r.out.clone();
     out.push(format!("I idle={}", idle as u8));
-    out.push(format!("D {}", r.k.layout.b().verif_digest()));
+    out.push(format!("D {}", r.digest())); // chv2
     let res = out.join(" ");
     if loop_mode {
         // the same history with the loop ticking through every gap
         drop(r);
         let mut r2 = Runner::new(&p.cfg_text).unwrap();
         run_hist_always_ticking(&mut r2, &p.hist);
+        if r2.risk {
+            return "unsupported oneshot-evict-chv2".into(); // chv2
+        }
         let mut o2 = r2.out.clone();
         o2.push(format!("I idle={}", r2.k.is_idle() as u8));
         format!("{res} || STEP {}", o2.join(" "))
